@@ -511,6 +511,82 @@ def lpddr_task(cfg, tier):
 # C vs Python header (bounded)
 # ---------------------------------------------------------------------------------------------------------------------
 
+def _swapb(x, i, j):
+    bi, bj = (x >> i) & 1, (x >> j) & 1
+    if bi != bj:
+        x ^= (1 << i) | (1 << j)
+    return x
+
+
+def _device_view_results(t0):
+    """DDR4 clam-shell / RDIMM: the copies of every mode-register write in the C header make EVERY device population latch
+    the generated mode-register value (independent device-side model: a bottom device sees the address mirrored --
+    A3<->A4, A5<->A6, A7<->A8, A11<->A13, BA0<->BA1 --, a B-side device behind the RCD sees A3-A9, A11, A13, BA, BG
+    inverted); bounded: enumerated CL/CWL pairs x topologies, executed natively"""
+    from litedram.common import PhySettings, TimingSettings, GeomSettings
+    from litedram.init import get_sdram_phy_c_header, get_sdram_phy_init_sequence
+    mirror = lambda a, ba: (_swapb(_swapb(_swapb(_swapb(a, 3, 4), 5, 6), 7, 8), 11, 13), _swapb(ba, 0, 1))
+    invert = lambda a, ba: (a ^ 0b10101111111000, ba ^ 0b1111)
+    res = []
+    for clam, rdimm in ((True, False), (False, True), (True, True)):
+        bad, n = None, 0
+        for cl, cwl in ((9, 9), (11, 9), (16, 12), (20, 14)):
+            ps = PhySettings(phytype="verif", memtype="DDR4", databits=16, dfi_databits=32, nphases=4, rdphase=0, wrphase=1,
+                             cl=cl, cwl=cwl, read_latency=5, write_latency=1, is_clam_shell=clam)
+            if rdimm:
+                ps.set_rdimm(tck=2 / (2 * 4 * 200e6), rcd_pll_bypass=False, rcd_ca_cs_drive=0x5, rcd_odt_cke_drive=0x5, rcd_clk_drive=0x5)
+            ts = TimingSettings(tRP=2, tRCD=2, tWR=3, tWTR=2, tREFI=780, tRFC=30, tFAW=None, tCCD=1, tRRD=None, tRC=8, tRAS=6, tZQCS=None)
+            ts.fine_refresh_mode = "1x"
+            seq, _mr = get_sdram_phy_init_sequence(ps, ts)
+            c = get_sdram_phy_c_header(ps, ts, GeomSettings(bankbits=3, rowbits=14, colbits=10))
+            body = c[c.index("static inline void init_sequence(void)"):]
+            steps, cur = [], None
+            for line in body.splitlines():
+                line = line.strip()
+                m1 = re.match(r"sdram_dfii_pi0_address_write\((0x[0-9a-fA-F]+)\);", line)
+                m2 = re.match(r"sdram_dfii_pi0_baddress_write\((\d+)\);", line)
+                m3 = re.match(r"(?:sdram_dfii_control_write|command_p0)\((.*)\);", line)
+                if m1:
+                    cur = [int(m1.group(1), 16), None, ""]
+                    steps.append(cur)
+                elif m2 and cur is not None:
+                    cur[1] = int(m2.group(1))
+                elif m3 and cur is not None:
+                    cur[2] = m3.group(1)
+            pos = 0
+            for (_c, a, ba, cmd, _d) in seq:
+                is_mr = "DFII_COMMAND_RAS|DFII_COMMAND_CAS|DFII_COMMAND_WE|DFII_COMMAND_CS" == cmd
+                ncopy = (2 if (rdimm and ba != 7) else 1) * (2 if (clam and is_mr) else 1)
+                grp = steps[pos:pos + ncopy]
+                pos += ncopy
+                if not is_mr or ba == 7:
+                    continue
+                n += 1
+                views = []          # (population, what it latches)
+                for (pa, pba, pcmd) in grp:
+                    bottom = "CS_BOTTOM" in pcmd
+                    for bside in ((False, True) if rdimm else (False,)):
+                        va, vba = (pa, pba)
+                        if bside:
+                            va, vba = invert(va, vba)
+                        if bottom:
+                            va, vba = mirror(va, vba)
+                        # a copy addresses the B side iff BG1 (bit 3 of ba as the device sees it) selects it
+                        views.append((("bottom" if bottom else ("top" if clam else "all")) + ("-B" if bside else "-A"), va, vba))
+                pops = sorted({v[0] for v in views})
+                for pop in pops:
+                    if not any(v[0] == pop and v[1] == a and v[2] == ba for v in views):
+                        bad = bad or dict(cl=cl, cwl=cwl, clam_shell=clam, rdimm=rdimm, mode_register=ba, value=a, population=pop,
+                                          copies=[(hex(x[0]), x[1], x[2]) for x in grp])
+        oid = "C17/headers[DDR4,clam_shell=%s,rdimm=%s]/bounded/every_device_population_latches_the_generated_mode_registers@%d" % (clam, rdimm, n)
+        r = {"id": oid, "kind": "bounded", "status": "failed" if bad else "bounded-ok", "seconds": round(time.time() - t0, 2),
+             "backend": "cpython (execute + device-side model)", "depth": n}
+        if bad:
+            r.update(where=str(bad), reproduced=True, model=bad)
+        res.append(r)
+    return res
+
+
 def header_task(cfg, tier):
     """both renderings describe the same sequence: execute the emitters and parse them back (bounded)"""
     t0 = time.time()
@@ -583,6 +659,7 @@ def header_task(cfg, tier):
                            memtype, nph, cl, tag, len(cseq), len(pyseq),
                            next((i for i, (x, y) in enumerate(zip(cseq, pyseq)) if x != y), min(len(cseq), len(pyseq)))))
     out = []
+    out += _device_view_results(t0)
     for tag in ("plain", "clam_shell"):
         mine = [b_ for b_ in bad if (" clam_shell:" in b_) == (tag == "clam_shell")]
         oid = "C17/headers[%s,enumerated_configs]/bounded/c_and_python_renderings_agree@%d" % (tag, n)
